@@ -42,7 +42,7 @@ def build_items(tier, seed, wd):
 
     for p in paths:
         add(p, ["--fix"], "default")
-    n_style = 150 if tier == "quick" else len(paths)
+    n_style = 120 if tier == "quick" else len(paths)
     sample = corpus.stratified_sample(paths, n_style, seed)
     for p in sample:
         add(p, ["--fix", "--style", "jcl"], "jcl")
@@ -69,9 +69,9 @@ def build_items(tier, seed, wd):
     base_inputs = [p for p in paths if p.endswith("_test_input.vhd") or "/styles/code_examples/" in p or "/rule_doc/" in p]
     # comments at every line end / between all lines, case, spacing.  (Line-break and join recipes are used for C05 -
     # classification - where the property names them; see DESIGN.md section 5 for why the fix family leaves them out.)
-    recipes = ["eol1", "own1", "upper"] if tier == "quick" else ["eol1", "eol3a", "eol3b", "own1", "own3", "upper", "lower", "flip", "widen", "narrow"]
+    recipes = ["eol1", "own1", "upper"] if tier == "quick" else ["eol1", "eol3a", "eol3b", "own1", "own3", "upper", "lower", "flip", "widen", "narrow"]  # not: break*, join*, breakcmt*
     for ri, rname in enumerate(recipes):
-        chosen = corpus.stratified_sample(base_inputs, 130 if tier == "quick" else len(base_inputs), seed + 17 * (ri + 1), always=("/styles/code_examples/",))
+        chosen = corpus.stratified_sample(base_inputs, 110 if tier == "quick" else len(base_inputs), seed + 17 * (ri + 1), always=("/styles/code_examples/",))
         for p in chosen:
             try:
                 with open(p, encoding="utf-8", newline="") as f:
